@@ -5,7 +5,7 @@ open DepsDev.Resolve.Npm
 
 /-! Line-protocol driver for C06 (wire format: see `harness/universe/npm_universe.go`).
 
-  resolve t=<hex>,<hex>,…  <U>  root=<name>@<ver>
+  resolve t=<hex>,<hex>,…  <U>  root=<name>@<ver>  fuel=<n>
       → `ok N=… E=… T=…` | `err` | `timeout` | `bad-universe`
 
 All strings are interned by the harness: the table `t=` (ignored here) lists them,
@@ -17,12 +17,11 @@ every other field uses indices into it (0 `""`, 1 `*`, 2 `bundle`, 3 `peer`, 4 `
   m:<pkg>:<req>:<vers>              `client.MatchingVersions` (`!` = error, `_` = none, else `ver,ver…`)
   s:<req>:<vers>                    `semver.NPM.ParseConstraint(req)` (`!` = error) and the version strings it matches
 
-The run has `driverFuel` pops of the queue; exhausted fuel prints `timeout` (the harness
-only emits universes on which Go either needs fewer pops or hits its deadline). -/
+The run has `fuel` pops of the queue; exhausted fuel prints `timeout`. The harness
+chooses the fuel: 2 + the number of edges of Go's graph when Go finishes (a run pops at
+most 1 + |edges| times), a small constant when Go hits its deadline. -/
 
 namespace C06Driver
-
-def driverFuel : Nat := 600
 
 def parseList (s : String) : Option (List String) :=
   if s == "_" then some [] else some (s.splitOn ",")
@@ -147,17 +146,24 @@ def showState (st : State) : String :=
 def hasBundles (u : Universe) : Bool :=
   u.versions.any fun (v, _) => (v.attr.get verDerivedFrom).isSome
 
-def handle : List String → String
-  | ["resolve", _t, us, root] =>
+def run (us root : String) (fuel : Nat) : String :=
     match parseUniverse us, parseRoot root with
     | some u, some (rn, rv) =>
       if hasBundles u then "out-of-domain" else
-      match resolve u rn rv driverFuel with
+      match resolve u rn rv fuel with
       | none => "timeout"
       | some .bad => "bad-universe"
       | some .err => "err"
       | some (.ok st) => showState st
     | _, _ => "bad-op"
+
+def handle : List String → String
+  | ["resolve", _t, us, root, fuel] =>
+    if fuel.startsWith "fuel=" then
+      match ((fuel.drop 5).toString).toNat? with
+      | some f => run us root f
+      | none => "bad-op"
+    else "bad-op"
   | _ => "bad-op"
 
 end C06Driver
